@@ -445,6 +445,62 @@ func init() {
 		"(*bufio.Reader).Buffered": func(in *Interp, fn *ssa.Function, a []Value) Value {
 			return IntV{in.p.lenOf(in.bufReaderOf(a[0]).buffered)}
 		},
+		"io.LimitReader": func(in *Interp, fn *ssa.Function, a []Value) Value {
+			t := fn.Signature.Results().At(0).Type() // io.Reader
+			_ = t
+			lr := in.eng.pkgs["io"].Type("LimitedReader").Type()
+			st := in.zero(lr.Underlying()).(*StructV)
+			st.f[0].v = a[0]
+			st.f[1].v = a[1]
+			return IfaceV{t: types.NewPointer(lr), v: Ptr{in.newCell(st)}}
+		},
+		"(*io.LimitedReader).Read": func(in *Interp, fn *ssa.Function, a []Value) Value {
+			st := a[0].(Ptr).c.v.(*StructV)
+			n := in.p.resLin(in.asLin(st.f[1].v))
+			if in.p.branch("limit-exhausted", bLin(n, LE0)) {
+				return TupleV{mkInt(0), in.eofErr()}
+			}
+			dst := a[1].(BytesV)
+			if !in.p.branch("limit-fits", bLin(in.p.resLin(dst.n).sub(n), LE0)) {
+				dst = BytesV{o: dst.o, off: dst.off, n: n}
+			}
+			src := st.f[0].v.(IfaceV)
+			rd := in.findMethod(src.t, nil, "Read")
+			if rd == nil {
+				in.unsupported("no Read method on %v", src.t)
+			}
+			res := in.callFunction(rd, []Value{src.v, dst}, nil).(TupleV)
+			st.f[1].v = IntV{in.p.resLin(n.sub(in.asLin(res[0])))}
+			return res
+		},
+		"io.ReadAll": func(in *Interp, fn *ssa.Function, a []Value) Value {
+			src := a[0].(IfaceV)
+			if src.t == nil {
+				in.panicGo("runtime error: invalid memory address or nil pointer dereference (nil io.Reader)")
+			}
+			rd := in.findMethod(src.t, nil, "Read")
+			if rd == nil {
+				in.unsupported("no Read method on %v", src.t)
+			}
+			var acc NF = NF{}
+			for n := 0; ; n++ {
+				if n > in.eng.cfg.unwind {
+					in.p.abort("unwind", "ReadAll loop exceeded the bound")
+				}
+				// memory grows with the bytes read (chunks of 512), never with a declared size
+				buf := BytesV{o: in.newByteObj(in.zeroBytes(512)), off: linC(0), n: linC(512)}
+				res := in.callFunction(rd, []Value{src.v, buf}, nil).(TupleV)
+				k := in.p.resLin(in.asLin(res[0]))
+				acc = nfCat(acc, in.p.slice(in.bytesContent(buf), linC(0), k))
+				if ev := res[1].(IfaceV); ev.t != nil {
+					out := BytesV{o: in.newByteObj(acc), off: linC(0), n: in.p.lenOf(acc)}
+					if in.sameRef(ev, in.eofErr()) {
+						return TupleV{out, IfaceV{}}
+					}
+					return TupleV{out, ev}
+				}
+			}
+		},
 		"io.ReadFull": func(in *Interp, fn *ssa.Function, a []Value) Value {
 			return in.readFull(a[0].(IfaceV), a[1].(BytesV))
 		},
